@@ -210,10 +210,12 @@ CLAIMS = [
         'text': 'Lattice linear / random-monotonic initial kernels, PWLCalibration equal-heights / equal-slopes kernels (library '
                 'function with symbolic bounds and keypoints) and KroneckerFactoredLattice initial kernel/scale/bias satisfy the '
                 'shape statements of the property and the feasibility hypotheses of C01/C04/C07/C12, for all random draws; '
-                'where the initial kernel is concrete the real weight constraint is run on it and returns it unchanged.',
+                'where the initial kernel is concrete the real weight constraint is run on it and returns it unchanged. Every '
+                'weight a PWL layer creates (incl. the learned missing output) and CategoricalCalibration initial kernels (ordering '
+                'pairs, bounds, fixed under the constraint, for every outcome of the random initializer) are covered. One fix: commit '
+                '(CategoricalCalibration started from a kernel violating its pairs).',
         'note': 'Trusted: operator contracts incl. random.uniform and the abstract sort contract, Keras stub, z3/cvc5. Concrete '
-                'clauses are exact evaluations per enumerated configuration with a 1e-7 rounding tolerance. CategoricalCalibration '
-                'initial kernels are not covered. Bounded shapes.',
+                'clauses are exact evaluations per enumerated configuration with a 1e-7 rounding tolerance. Bounded shapes.',
         'design_ref': 'DESIGN.md section 4 C10',
     },
     {
